@@ -1,5 +1,7 @@
 (* C04 - fingerprinting is a pure function of (molecule, conformer, options).  Statements only.
-   Model: Model/Fprinter.v (one Fingerprinter object across a history of run() calls) over Model/E3FP.v.
+   Model: Model/Fprinter.v (one Fingerprinter object across a history of run() calls: the molecule-level tables cached
+   by object identity AND the conformer-level state level_shells / past_substructs / current_level, with reset_mol,
+   reset_conf and the queries through the dictionary as in fprinter.py) over Model/E3FP.v.
    The model has no shared state between objects, so interleavings of independent jobs cannot interact in it; that the
    implementation has none either is what the correspondence checks under threads / processes / hash seeds (partial). *)
 From Coq Require Import QArith.
@@ -7,13 +9,73 @@ From E3FP Require Import Base.Prelude Model.Geometry Model.Stereo Model.Fprint M
   Proofs.FprinterHistory Gen.Constants Gen.AngleTable Exec.RunM1.
 Open Scope Z_scope.
 
+(* What one iteration writes into an EMPTY dictionary: exactly the keys 0..k with that run's levels.  This is the only
+   place where "reset_conf ran first" enters: on a dictionary that was not emptied, keys beyond k survive. *)
+Theorem store_into_empty_dictionary :
+  forall st : state, store st [] = enum_from 0 (rev (st_shells st)).
+Proof. exact store_fresh. Qed.
+Print Assumptions store_into_empty_dictionary.
+
+Theorem store_keeps_stale_keys :
+  forall (st : state) (d : list (Z * list shell)) (j : Z),
+    Z.of_nat (length (st_shells st)) <= j -> dget j (store st d) = dget j d.
+Proof. exact store_keeps_stale. Qed.
+Print Assumptions store_keeps_stale_keys.
+
+(* For every ring dictionary, constants, fuel, and ANY previous object state f (whatever its dictionary holds): after a
+   run() that returns normally, the keys of level_shells are exactly 0..k, each entry is the corresponding level of
+   THIS run's state, current_level = k and past_substructs is this run's. *)
+Theorem frun_levels_exact :
+  forall D C fuel (f : fprinter D) (id : Z) (m : mol D),
+    f_exn D (frun D C fuel f id m) = None ->
+    exists base st, f_tables D (frun D C fuel f id m) = Some base /\
+      run D C fuel (f_opts D f) (with_positions D base m) = Ok st /\
+      map fst (f_level_shells D (frun D C fuel f id m)) = zseq 0 (S (Z.to_nat (st_k st))) /\
+      (forall l, dget l (f_level_shells D (frun D C fuel f id m))
+                 = if (0 <=? l) && (l <=? st_k st) then Some (shells_at_true st l) else None) /\
+      f_cur D (frun D C fuel f id m) = Some (st_k st) /\ f_past D (frun D C fuel f id m) = st_past st.
+Proof. exact FprinterHistory.frun_levels_exact. Qed.
+Print Assumptions frun_levels_exact.
+
+(* ... and every get_fingerprint_at_level on the object (resolution `level not in self.level_shells` through the
+   dictionary) is the range-based query of Model/E3FP.v on that run's state. *)
+Theorem fquery_eq_fingerprint_query :
+  forall D C fuel (f : fprinter D) (id : Z) (m : mol D),
+    f_exn D (frun D C fuel f id m) = None ->
+    exists base st, f_tables D (frun D C fuel f id m) = Some base /\
+      run D C fuel (f_opts D f) (with_positions D base m) = Ok st /\
+      forall counts bits req mask,
+        fquery D (frun D C fuel f id m) counts bits req mask = fingerprint_query (f_opts D f) counts bits st req mask.
+Proof. exact FprinterHistory.fquery_eq_fingerprint_query. Qed.
+Print Assumptions fquery_eq_fingerprint_query.
+
+(* Without the clearing of level_shells in reset_conf (Model/Fprinter.v's seeded-bug variant frun_noreset) this fails on
+   a consistent history: the explicit query for a level the new conformer did not reach returns the previous
+   conformer's shells; the faithful model answers as a fresh object does. *)
+Theorem stale_levels_without_reset :
+  exists (o : opts) (i : Z) (mA mB : mol ZD) (L : Z),
+    let f1 := frun_noresetZ (new_fprinter ZD o) i mA in
+    let f2 := frun_noresetZ f1 i mB in
+    consistent ZD [(i, mA); (i, mB)] /\
+    f_exn ZD f2 = None /\ f_cur ZD f2 = Some 0 /\ 0 < L /\
+    dmem L (f_level_shells ZD f2) = true /\
+    fshells ZD f2 (Some L) = fshells ZD f1 (Some L) /\
+    result_eqb fp_obs_eqb (fquery ZD f2 false 1024 (Some L) [])
+                          (fquery ZD (frunZ (new_fprinter ZD o) i mB) false 1024 (Some L) []) = false /\
+    result_eqb fp_obs_eqb (fquery ZD (frun_allZ (new_fprinter ZD o) [(i, mA); (i, mB)]) false 1024 (Some L) [])
+                          (fquery ZD (frunZ (new_fprinter ZD o) i mB) false 1024 (Some L) []) = true.
+Proof. exact stale_levels_without_reset_w. Qed.
+Print Assumptions stale_levels_without_reset.
+
 (* For every ring dictionary, options, fuel and every history of run() calls in which no molecule object was edited in
    place (the same identity always carries the same atoms/bonds; coordinates - the conformer - may differ freely):
-   the outcome of the last run is the outcome of a fresh fingerprinter on that input. *)
+   the conformer-level state after the last run (level_shells with all its keys, past_substructs, current_level, the
+   exception if the run raised) is that of a fresh fingerprinter's run on that input. *)
 Theorem history_independent_partial :
   forall D C fuel (o : opts) (p : list (Z * mol D)) (i : Z) (m : mol D),
     consistent D (p ++ [(i, m)]) ->
-    f_last D (frun_all D C fuel (new_fprinter D o) (p ++ [(i, m)])) = Some (run D C fuel o m).
+    conf_state D (frun_all D C fuel (new_fprinter D o) (p ++ [(i, m)])) = fresh_state (run D C fuel o m)
+    /\ f_opts D (frun_all D C fuel (new_fprinter D o) (p ++ [(i, m)])) = o.
 Proof. exact history_independent. Qed.
 Print Assumptions history_independent_partial.
 
@@ -25,6 +87,15 @@ Theorem query_history_independent_partial :
 Proof. exact query_history_independent. Qed.
 Print Assumptions query_history_independent_partial.
 
+(* and when that run succeeds, it is the query of Model/E3FP.v (C02, C12, C17, C18 are stated about it) *)
+Theorem query_after_history_is_run_query :
+  forall D C fuel (o : opts) p i m st counts bits req mask,
+    consistent D (p ++ [(i, m)]) -> run D C fuel o m = Ok st ->
+    fquery D (frun_all D C fuel (new_fprinter D o) (p ++ [(i, m)])) counts bits req mask
+    = fingerprint_query o counts bits st req mask.
+Proof. exact query_history_is_run_query. Qed.
+Print Assumptions query_after_history_is_run_query.
+
 (* Queries (get_fingerprint_at_level) are reads: in the model `fquery` returns a value and the object is not among its
    outputs; that the implementation's queries write nothing is checked by the correspondence (every object is re-observed
    after interleaved queries, and the mutable default arguments are compared before/after every history). *)
@@ -32,28 +103,20 @@ Print Assumptions query_history_independent_partial.
 (* The full statement (no hypothesis on the history) is FALSE of the faithful model: a molecule object edited in place
    between two runs is fingerprinted with the tables cached for its identity.  Witness: C-O, then the same object with the
    oxygen turned into sulfur.  Replayed on the implementation this is the known finding C04-mol-mutated-in-place. *)
-Definition w_atom (i num mass : Z) (x : Z) : atom ZD :=
-  mkatom ZD i num 1 1 1 0 mass 0 0 0 (mkvec (D:=ZD) x 0 0).
-Definition w_mol (num2 mass2 : Z) : mol ZD :=
-  mkmol ZD [w_atom 0 6 12 0; w_atom 1 num2 mass2 90000] [(0, 1, BtSingle)] 4294967296.
-Definition w_opts : opts := mkopts 2 1718 1000 true true true false true.
-
 Theorem history_independent_refuted :
   exists (h : list (Z * mol ZD)) (i : Z) (m : mol ZD),
     result_eqb fp_obs_eqb
       (fquery ZD (frun_allZ (new_fprinter ZD w_opts) (h ++ [(i, m)])) false 4294967296 None [])
       (fquery ZD (frunZ (new_fprinter ZD w_opts) i m) false 4294967296 None []) = false.
-Proof. exists [(7, w_mol 8 15)], 7, (w_mol 16 32). vm_compute. reflexivity. Qed.
+Proof. exact history_independent_refuted_w. Qed.
 Print Assumptions history_independent_refuted.
 
-(* non-vacuity: a history that reuses a molecule object with another conformer, and another molecule in between, is consistent *)
+(* non-vacuity: a history that reuses a molecule object with another conformer, and another molecule in between, is
+   consistent; and a run on an object with a stale history returns normally *)
 Example consistent_history_exists :
   consistent ZD ([(7, w_mol 8 15); (9, w_mol 16 32)] ++ [(7, mkmol ZD [w_atom 0 6 12 5; w_atom 1 8 15 70000] [(0, 1, BtSingle)] 4294967296)]).
-Proof.
-  split.
-  - intros i a b Ha Hb. simpl in Ha, Hb.
-    destruct Ha as [Ha|[Ha|[Ha|[]]]]; destruct Hb as [Hb|[Hb|[Hb|[]]]]; inversion Ha; inversion Hb; subst;
-      try discriminate; split; reflexivity.
-  - intros i a Ha. simpl in Ha. destruct Ha as [Ha|[Ha|[Ha|[]]]]; inversion Ha; subst;
-      unfold wf_mol; simpl; repeat constructor; simpl; intuition discriminate.
-Qed.
+Proof. exact consistent_history_exists_w. Qed.
+
+Example frun_ok_exists :
+  f_exn ZD (frunZ (frunZ (new_fprinter ZD w3_opts) 7 (w3 98304 196608)) 7 (w3 400000 800000)) = None.
+Proof. exact frun_ok_exists_w. Qed.
